@@ -201,6 +201,17 @@ func (p *Pool) fresh(st *poolState) any {
 func (s *Sim) GC() {
 	s.Counters[CtFaultGC]++
 	s.mix(0x8000)
+	if n := len(s.GCSteps); n < 4096 {
+		if n == cap(s.GCSteps) {
+			bigger := make([]int, n, 2*n+16)
+			for i := 0; i < n; i++ {
+				bigger[i] = s.GCSteps[i]
+			}
+			s.GCSteps = bigger
+		}
+		s.GCSteps = s.GCSteps[:n+1]
+		s.GCSteps[n] = s.step
+	}
 	dropped := 0
 	for i := 0; i < len(s.pools); i++ {
 		st := s.pools[i]
